@@ -136,7 +136,7 @@ impl World {
             config = config.with_completion_queue_size(c);
         }
         if cfg.direct {
-            config = config.with_direct_descriptors(16);
+            config = config.with_direct_descriptors(4096);
         }
         let ring = alloc::a10(|| config.build()).expect("world: building ring on simk failed");
         let sq = ring.sq();
